@@ -415,7 +415,8 @@ where
 
     #[inline(always)]
     fn interpolate(a: f64, b: f64, t: f64) -> f64 {
-        debug_assert!((0. ..=1.).contains(&t));
+        // `t` can leave [0, 1] by rounding (e.g. when `q` hits a centroid midpoint exactly)
+        let t = t.clamp(0., 1.);
         t * b + (1. - t) * a
     }
 
